@@ -1,5 +1,5 @@
 (* C13 -- state broadcast: ids strictly increase, receivers converge on the latest state. *)
-From FI Require Import Base StateBcast StateBcastSpec StateBcastProofs StateIdProofs.
+From FI Require Import Base StateBcast StateBcastSpec StateBcastProofs StateIdProofs StateHandleProofs.
 
 (* For every contract-respecting history (any number of receive futures with any requested
    ids, wakers private to each future, borrowed or shared handles) the monitor [state_ok] of
@@ -91,6 +91,15 @@ Example C13_witness :
      ([R_SOME; 2; 6], [])]%N.
 Proof. vm_compute. repeat split; reflexivity. Qed.
 
+(* The handle-lifecycle monitor [handles_ok] of Model/StateBcastSpec.v (the one the check
+   evaluates on the real crate's traces of the shared state-broadcast flavour) holds on every
+   contract-respecting encoded history with whole-call handle drops: without an explicit
+   close() the channel is closed exactly when one side has no handle left. *)
+Theorem C11c_handles_trace : forall k ls,
+  mlegal_run (init k) ls = true ->
+  handles_ok (mtrace (init k) ls) = true.
+Proof. exact handles_trace_holds. Qed.
+
 Print Assumptions C13_protocol.
 Print Assumptions C13_ids_move_only_with_send.
 Print Assumptions C13_send.
@@ -101,3 +110,4 @@ Print Assumptions C11c_close_status.
 Print Assumptions C11c_closed_monotone.
 Print Assumptions C11c_implicit_close.
 Print Assumptions C13_after_close.
+Print Assumptions C11c_handles_trace.
